@@ -584,7 +584,12 @@ Section Parser.
         | _ =>
             let ts1 := match ts with TLparen :: r => r | _ => ts end in
             let prev1 := match ts with TLparen :: _ => length ts | _ => prev end in
-            bind (pats_loop fuel o prev1 ts1) (fun r =>
+            (* the input ended right after the optional '(' of an item: "case patterns must consist of words"
+               (repo fix 78dddf0: an item without patterns never reaches the tree) *)
+            bind (match ts1 with
+                  | [] => perr o ts1 ECasePatWords prev1
+                  | _ => pats_loop fuel o prev1 ts1
+                  end) (fun r =>
             bind (stmts f o QCase [TEsac] true false (tl r)) (fun v =>
             let r2 := fst v in
             match r2 with
